@@ -52,6 +52,7 @@ REQUIRED = [
     "kind:async-iterator",
     "path:copy",
     "path:buffered",
+    "second_reader_polls_while_first_is_blocked",
 ]
 WATCHDOG = {"quick": 900, "thorough": 7200}
 HOSTILE = b'"HOSTILE"\nHOSTILE\r\n\x00\x00\x00\x07HOSTILE' * 4
@@ -431,6 +432,82 @@ _CFG_NAMES = [
 ]
 
 
+def run_sync_client_second_reader(ctx, rng: random.Random, tag) -> None:
+    """the blocking client shared by two threads: one is blocked in recv_packet(timeout=None), the other one polls with a finite or
+    zero timeout (or the default iterator) and gets TimeoutError; then the peer sends two packets and closes. The packets are
+    delivered once each, in order, to whoever asks, and end-of-stream comes after them"""
+    import threading
+    import time
+
+    from easynetwork.clients.tcp import TCPNetworkClient
+    from easynetwork.protocol import StreamProtocol
+    from easynetwork.serializers import StringLineSerializer
+
+    a, b = _tcp_pair()
+    client = TCPNetworkClient(a, StreamProtocol(StringLineSerializer()))
+    out: dict = {}
+    poll = rng.choice(["recv0", "recv0.05", "iter0"])
+
+    def t1():
+        try:
+            out["first"] = ("pkt", client.recv_packet(timeout=None))
+        except BaseException as exc:  # noqa: BLE001
+            out["first"] = ("exc", f"{type(exc).__name__}: {exc}")
+
+    th = threading.Thread(target=t1, daemon=True)
+    th.start()
+    time.sleep(0.05)
+    polled = []
+    for _ in range(rng.randint(1, 3)):
+        try:
+            if poll == "iter0":
+                polled.append(("pkts", list(client.iter_received_packets(timeout=0))))
+            else:
+                polled.append(("pkt", client.recv_packet(timeout=0 if poll == "recv0" else 0.05)))
+        except TimeoutError:
+            polled.append(("timeout",))
+        except BaseException as exc:  # noqa: BLE001
+            polled.append(("exc", f"{type(exc).__name__}: {exc}"))
+    b.sendall(b"A\nB\n")
+    th.join(20)
+    rest = []
+    if not th.is_alive():
+        b.close()
+        for _ in range(3):
+            try:
+                rest.append(("pkt", client.recv_packet(timeout=5)))
+            except ConnectionAbortedError:
+                rest.append(("eof",))
+                break
+            except BaseException as exc:  # noqa: BLE001
+                rest.append(("exc", f"{type(exc).__name__}: {exc}"))
+                break
+    else:
+        b.close()
+    try:
+        client.close()
+    except Exception:  # noqa: BLE001
+        pass
+    ctx.count("second_reader_polls_while_first_is_blocked")
+    ctx.case(True, "sync-client-second-reader", poll, len(polled))
+    why = None
+    if th.is_alive():
+        why = "the blocked recv_packet(timeout=None) never returned although two packets were sent"
+    elif any(x[0] == "exc" for x in polled):
+        why = f"the polling thread got {[x for x in polled if x[0] == 'exc'][0][1]} instead of TimeoutError"
+    else:
+        delivered = [x[1] for x in polled if x[0] == "pkt"] + [y for x in polled if x[0] == "pkts" for y in x[1]]
+        seq = delivered + ([out["first"][1]] if out.get("first", ("", ""))[0] == "pkt" else []) + [x[1] for x in rest if x[0] == "pkt"]
+        if out.get("first", ("",))[0] == "exc":
+            why = f"the blocked recv_packet(timeout=None) raised {out['first'][1]} after another thread's poll ({poll}) had timed out; packets delivered afterwards: {[x[1] for x in rest if x[0] == 'pkt']}"
+        elif seq != ["A", "B"]:
+            why = f"packets sent A, B; delivered {seq} (poll={poll}, polled={polled}, rest={rest})"
+        elif not rest or rest[-1][0] != "eof":
+            why = f"end-of-stream was not reported after the two packets: {rest}"
+    if why:
+        ctx.violation("second-reader:sync-client", f"[TCPNetworkClient, two reader threads] {why}", {"kind": "second-reader", "config": "line", "tag": tag})
+
+
 def plan(tier: str, seed: int) -> list[dict]:
     iters = 6 if tier == "quick" else 120
     return [{"seed": seed * 1000 + k, "iters": iters, "sockets": 6 if tier == "quick" else 60} for k in range(16)]
@@ -438,6 +515,8 @@ def plan(tier: str, seed: int) -> list[dict]:
 
 def run_shard(params: dict, ctx) -> None:
     rng = random.Random(params["seed"])
+    for k in range(3):
+        run_sync_client_second_reader(ctx, rng, [params["seed"], "second-reader", k])
     cfgs = [gen.config_by_name(n) for n in _CFG_NAMES]
     for cfg in cfgs:
         can_buf = cfg.is_buffered()
@@ -468,6 +547,10 @@ def run_shard(params: dict, ctx) -> None:
 
 
 def replay(witness: dict, ctx) -> None:
+    if witness.get("kind") == "second-reader":
+        for k in range(5):
+            run_sync_client_second_reader(ctx, random.Random(k), witness.get("tag"))
+        return
     # deterministic re-run of the same shard position is not possible from the witness alone; re-run the kind with the
     # recorded stream/cut over a few seeds
     cfg = gen.config_by_name(witness["config"])
